@@ -158,7 +158,13 @@ fn apply(m: &Mutation, img: &Path, stale: &Path) -> std::io::Result<bool> {
 	Ok(changed)
 }
 
+thread_local! {
+	/// offset of the first byte an Overwrite really changed
+	static FIRST_CHANGED: std::cell::Cell<Option<u64>> = const { std::cell::Cell::new(None) };
+}
+
 fn apply_inner(m: &Mutation, img: &Path, stale: &Path) -> std::io::Result<bool> {
+	FIRST_CHANGED.with(|c| c.set(None));
 	match m {
 		Mutation::Truncate(f, x) => {
 			let fh = std::fs::OpenOptions::new().write(true).open(img.join(f))?;
@@ -180,6 +186,9 @@ fn apply_inner(m: &Mutation, img: &Path, stale: &Path) -> std::io::Result<bool> 
 				}
 			}
 			let changed = d != before;
+			if let Some(i) = d.iter().zip(before.iter()).position(|(a, b)| a != b) {
+				FIRST_CHANGED.with(|c| c.set(Some(i as u64)));
+			}
 			std::fs::write(img.join(f), d)?;
 			Ok(changed)
 		},
@@ -529,6 +538,16 @@ pub fn run(ctx: &Ctx, rep: &mut Report, rec: &Recorded, work: &Scratch, rng: &mu
 		}
 		rep.count("mutations", 1);
 		rep.count(m.class(), 1);
+		// an overwrite may start with bytes that already had the new value: the first record
+		// really touched is the one holding the first CHANGED byte
+		let adjusted;
+		let limit = match (m, FIRST_CHANGED.with(|c| c.get())) {
+			(Mutation::Overwrite(f, _, _), Some(first)) => {
+				adjusted = limit_at(f, first);
+				&adjusted
+			},
+			_ => limit,
+		};
 		let lim = (*limit).max(j0);
 		let which_record = match m {
 			Mutation::Truncate(f, x) | Mutation::BitFlip(f, x, _) | Mutation::Overwrite(f, x, _) | Mutation::ZeroTrailerAndFlip(f, _, x, _) => {
@@ -560,7 +579,16 @@ pub fn run(ctx: &Ctx, rep: &mut Report, rec: &Recorded, work: &Scratch, rng: &mu
 					Mutation::BitFlip(..) | Mutation::Overwrite(..) | Mutation::ZeroTrailerAndFlip(..) => "log_bytes_damaged",
 					Mutation::Append(..) => "log_tail_appended",
 				};
-				rep.violation(format!("scenario=C13;{};mutation={}", sig, scenario), format!("{} -> {} (tables alone hold prefix {}, logs hold up to {})", m.show(), d, j0, n), replay(&m.show()));
+				let f6 = matches!(scenario, "first_pending_log_hidden" | "stale_generation_log" | "damage_before_table_state");
+				if !f6 {
+					rep.count("violations_other_than_f6", 1);
+				}
+				if !f6 || rep.get(&format!("f6_reports_{}", scenario)) < 3 {
+					rep.count(&format!("f6_reports_{}", scenario), 1);
+					rep.violation(format!("scenario=C13;{};mutation={}", sig, scenario), format!("{} -> {} (tables alone hold prefix {}, logs hold up to {})", m.show(), d, j0, n), replay(&m.show()));
+				} else {
+					rep.count("f6_witnesses_not_reported_again", 1);
+				}
 			},
 			Some(Ok(mm)) => {
 				// `mm` is the highest matching prefix; equal-looking lower prefixes are as good
@@ -578,8 +606,22 @@ pub fn run(ctx: &Ctx, rep: &mut Report, rec: &Recorded, work: &Scratch, rng: &mu
 						_ if hides_first(m) => "first_pending_log_hidden",
 						_ if *limit < j0 => "damage_before_table_state",
 						Mutation::Stale => "stale_generation_log",
+						// an exact OLDER prefix than the tables held can only come from complete,
+						// already applied records being replayed again without catching up (e.g. a
+						// later file whose damaged first record id sorts it into the middle): the
+						// same root cause (no persisted last-enacted id)
+						_ if mm < j0 => "damage_before_table_state",
 						_ => m.class(),
 					};
+					let f6 = matches!(scenario, "first_pending_log_hidden" | "stale_generation_log" | "damage_before_table_state");
+					if !f6 {
+						rep.count("violations_other_than_f6", 1);
+					}
+					if f6 && rep.get(&format!("f6_reports_{}", scenario)) >= 3 {
+						rep.count("f6_witnesses_not_reported_again", 1);
+						continue
+					}
+					rep.count(&format!("f6_reports_{}", scenario), 1);
 					rep.violation(
 						format!("scenario=C13;failure=applied_past_damage;mutation={}", scenario),
 						format!("{} -> recovered prefix {} but only prefixes {}..={} are admissible (first touched record follows commit {})", m.show(), mm, j0, lim, limit),
@@ -588,7 +630,7 @@ pub fn run(ctx: &Ctx, rep: &mut Report, rec: &Recorded, work: &Scratch, rng: &mu
 				}
 			},
 		}
-		if rep.get("violations_raw") >= 12 {
+		if rep.get("violations_other_than_f6") >= 12 {
 			break
 		}
 	}
